@@ -16,6 +16,11 @@ QUERY_CLASSES = [P.Query, MySQLQuery, PostgreSQLQuery, SQLLiteQuery, MSSQLQuery,
 CTXS = [qc.SQL_CONTEXT for qc in QUERY_CLASSES]
 
 
+# the derivation methods (wrapped by utils.builder) of the pinned commit: a method stays a derivation in the eyes of the property
+# whatever decorator it carries later
+KNOWN_DERIVATIONS = __import__("json").load(open(__import__("os").path.join(__import__("os").path.dirname(__import__("os").path.abspath(__file__)), "builder_names.json")))
+
+
 def discover():
     """[(class, method name)] for every function wrapped by utils.builder, taken from the live modules."""
     out = []
@@ -29,6 +34,8 @@ def discover():
             for k, v in c.__dict__.items():
                 if inspect.isfunction(v) and v.__qualname__ == "builder.<locals>._copy":
                     out.append((c, k))
+                elif inspect.isfunction(v) and [c.__module__ + "." + c.__qualname__, k] in KNOWN_DERIVATIONS:
+                    out.append((c, k))      # a derivation method of the pinned commit that is no longer wrapped by @builder: still a derivation
     return sorted(out, key=lambda ck: (ck[0].__module__, ck[0].__name__, ck[1]))
 
 
@@ -166,6 +173,8 @@ def receivers(cls, name):
                 R.append(lambda qc=qc: upd(qc))
             if name in ("where", "returning", "orderby", "limit"):
                 R.append(lambda qc=qc: dele(qc))
+            if name in ("from_", "join"):
+                R.append(lambda qc=qc: qc.from_(qc.from_(T_("i0")).select("a")).select("a"))     # already holds an automatically aliased sub-query (sq0)
             if name in ("into", "update", "delete", "from_", "select", "with_", "rollup", "groupby"):
                 R.append(lambda qc=qc: qc.from_(T_("t")))
                 R.append(lambda qc=qc: qc.from_(T_("t")).select("a").groupby("a").rollup(T.Field("b")))
@@ -274,6 +283,8 @@ def args_for(cls, name, recv, k):
     if name == "from_":
         if k == 1:
             return call(P.Query.from_(T_("inner")).select("a"))     # un-aliased sub-query: gets sq<n> (permitted)
+        if k == 2:
+            return call(P.Query.from_(T_("inner2")).select("b").as_("sq0"))   # an alias the caller chose (even one that looks automatic) stays
         return call(u)
     if name == "join":
         item = [u, T_("t"), P.Query.from_(T_("j")).select("a")][k]   # k=1: self join (permitted alias), k=2: sub-query
